@@ -28,6 +28,7 @@ import ast
 import os
 import re
 import sys
+import warnings
 from fractions import Fraction
 
 ROOT_INTEGRATOR = 'pysph.sph.integrator.Integrator'
@@ -346,7 +347,9 @@ def load_classes(repo):
                     and 'Step' not in src:
                 continue
             try:
-                tree = ast.parse(src, path)
+                with warnings.catch_warnings():
+                    warnings.simplefilter('ignore')
+                    tree = ast.parse(src, path)
             except SyntaxError as e:
                 raise Unsupported('cannot parse %s: %s' % (path, e))
             module = _module_name(repo, path)
